@@ -17,6 +17,7 @@ Fixpoint esize (e : expr) : nat :=
   | EIf c t f => S (esize c + esize t + esize f)
   | EList es => S (list_sum (map esize es))
   | EStruct _ fields => S (list_sum (map (fun fe => esize (snd fe)) fields))
+  | EInterp parts => S (list_sum (map (fun p => match p with PExpr a _ => esize a | PFixed _ => 0 end) parts))
   | _ => 1
   end.
 
@@ -51,16 +52,153 @@ Qed.
 Lemma leb_intro : forall a b, a <= b -> (a <=? b) = true.
 Proof. intros. apply Nat.leb_le. assumption. Qed.
 
+(* ---- interpolated strings: the parts list in the shape the parser builds *)
+Fixpoint mp_parts (mp : expr -> sx) (ps : list (ipart expr)) : str * list (sx * option str * str) :=
+  match ps with
+  | [] => ([], [])
+  | PFixed s :: r => let (s0, it) := mp_parts mp r in (s ++ s0, it)
+  | PExpr a f :: r =>
+      let (s0, it) := mp_parts mp r in
+      ([], (mp a, f, 125%N :: escape_numbat_string s0 ++ [match it with [] => c_quote | _ :: _ => 123%N end]) :: it)
+  end.
+Fixpoint norm_parts (p : expr -> bool) (prev_fixed : bool) (ps : list (ipart expr)) : bool :=
+  match ps with
+  | [] => true
+  | PFixed s :: r => negb prev_fixed && match s with [] => false | _ => true end && norm_parts p true r
+  | PExpr a _ :: r => p a && norm_parts p false r
+  end.
+Definition has_interp (ps : list (ipart expr)) : bool :=
+  existsb (fun p => match p with PExpr _ _ => true | PFixed _ => false end) ps.
+
+Lemma min_paren_interp : forall parts,
+  min_paren (EInterp parts)
+  = SInterp (c_quote :: escape_numbat_string (fst (mp_parts min_paren parts)) ++ [123%N]) (snd (mp_parts min_paren parts)).
+Proof.
+  intros parts. cbn [min_paren].
+  assert (E : forall ps,
+    (fix go (ps : list (ipart expr)) : str * list (sx * option str * str) :=
+       match ps with
+       | [] => ([], [])
+       | PFixed s :: r => let (s0, it) := go r in (s ++ s0, it)
+       | PExpr a f :: r =>
+           let (s0, it) := go r in
+           ([], (min_paren a, f,
+                 125%N :: escape_numbat_string s0 ++ [match it with [] => c_quote | _ :: _ => 123%N end]) :: it)
+       end) ps = mp_parts min_paren ps).
+  { induction ps as [|[s|a f] r IH]; [reflexivity| |]; cbn [mp_parts]; rewrite <- IH; reflexivity. }
+  rewrite E. reflexivity.
+Qed.
+
+Lemma printable_interp : forall parts,
+  printable (EInterp parts) = has_interp parts && norm_parts printable false parts.
+Proof.
+  intros parts. cbn [printable]. unfold has_interp. f_equal.
+  assert (E : forall ps b,
+    (fix np (prev_fixed : bool) (ps : list (ipart expr)) : bool :=
+       match ps with
+       | [] => true
+       | PFixed s :: r => negb prev_fixed && match s with [] => false | _ => true end && np true r
+       | PExpr a _ :: r => printable a && np false r
+       end) b ps = norm_parts printable b ps).
+  { induction ps as [|[s|a f] r IH]; intros b; [reflexivity| |]; cbn [norm_parts]; rewrite <- IH; reflexivity. }
+  apply E.
+Qed.
+
+Lemma esize_in_parts : forall a f parts, In (PExpr a f) parts ->
+  esize a <= list_sum (map (fun p : ipart expr => match p with PExpr a _ => esize a | PFixed _ => 0 end) parts).
+Proof.
+  induction parts as [|p r IH]; simpl; intros H; [tauto|]. destruct H as [->|H]; [lia|]. specialize (IH H). lia.
+Qed.
+
+Definition parts_of (it : list (sx * option str * str)) : list (ipart expr) :=
+  flat_map (fun it => [PExpr (desugar (fst (fst it))) (snd (fst it)); PFixed (strip_and_escape (snd it))]) it.
+
+Lemma mp_parts_nofixed : forall mp p r, norm_parts p true r = true -> fst (mp_parts mp r) = [].
+Proof.
+  intros mp p [|[s|a f] r] H; [reflexivity|discriminate|]. cbn [mp_parts]. destruct (mp_parts mp r). reflexivity.
+Qed.
+
+Lemma filter_fixed_nil : forall l : list (ipart expr),
+  filter nonempty_part (PFixed [] :: l) = filter nonempty_part l.
+Proof. reflexivity. Qed.
+Lemma filter_fixed_cons : forall c s (l : list (ipart expr)),
+  filter nonempty_part (PFixed (c :: s) :: l) = PFixed (c :: s) :: filter nonempty_part l.
+Proof. reflexivity. Qed.
+Lemma filter_expr : forall a f (l : list (ipart expr)),
+  filter nonempty_part (PExpr a f :: l) = PExpr a f :: filter nonempty_part l.
+Proof. reflexivity. Qed.
+
+Lemma mp_parts_ok : forall mp p ps prev,
+  (forall a f, In (PExpr a f) ps -> p a = true -> desugar (mp a) = a) ->
+  norm_parts p prev ps = true ->
+  filter nonempty_part (PFixed (fst (mp_parts mp ps)) :: parts_of (snd (mp_parts mp ps))) = ps.
+Proof.
+  induction ps as [|[s|a f] r IH]; intros prev HD N.
+  - reflexivity.
+  - cbn [norm_parts] in N. apply andb_prop in N. destruct N as [N N3]. apply andb_prop in N. destruct N as [_ N2].
+    pose proof (mp_parts_nofixed mp p r N3) as F0.
+    assert (IH' := IH true (fun a f Ha => HD a f (or_intror Ha)) N3).
+    cbn [mp_parts]. destruct (mp_parts mp r) as [s0 it]. cbn [fst snd] in *. subst s0. rewrite app_nil_r.
+    rewrite filter_fixed_nil in IH'. destruct s as [|c s']; [discriminate|].
+    rewrite filter_fixed_cons, IH'. reflexivity.
+  - cbn [norm_parts] in N. apply andb_prop in N. destruct N as [Pa N2].
+    assert (IH' := IH false (fun a f Ha => HD a f (or_intror Ha)) N2).
+    cbn [mp_parts]. destruct (mp_parts mp r) as [s0 it]. cbn [fst snd] in *.
+    change (parts_of ((mp a, f, 125%N :: escape_numbat_string s0 ++ [match it with [] => c_quote | _ :: _ => 123%N end]) :: it))
+      with (PExpr (desugar (mp a)) f
+            :: PFixed (strip_and_escape (125%N :: escape_numbat_string s0 ++ [match it with [] => c_quote | _ :: _ => 123%N end]))
+            :: parts_of it).
+    rewrite filter_fixed_nil, filter_expr. rewrite string_escape_roundtrip_delim.
+    rewrite (HD a f (or_introl eq_refl) Pa). rewrite IH'. reflexivity.
+Qed.
+
+Lemma mp_parts_wf : forall mp p ps prev,
+  (forall a f, In (PExpr a f) ps -> p a = true -> wf (mp a) = true) ->
+  norm_parts p prev ps = true ->
+  forallb (fun it : sx * option str * str => wf (fst (fst it))) (snd (mp_parts mp ps)) = true
+  /\ (has_interp ps = true -> snd (mp_parts mp ps) <> []).
+Proof.
+  induction ps as [|[s|a f] r IH]; intros prev HW N.
+  - split; [reflexivity|discriminate].
+  - cbn [norm_parts] in N. apply andb_prop in N. destruct N as [_ N3].
+    destruct (IH true (fun a f Ha => HW a f (or_intror Ha)) N3) as [W NE].
+    cbn [mp_parts]. destruct (mp_parts mp r) as [s0 it]. cbn [snd] in *. split; [exact W|exact NE].
+  - cbn [norm_parts] in N. apply andb_prop in N. destruct N as [Pa N2].
+    destruct (IH false (fun a f Ha => HW a f (or_intror Ha)) N2) as [W _].
+    cbn [mp_parts]. destruct (mp_parts mp r) as [s0 it]. cbn [snd forallb fst] in *.
+    rewrite (HW a f (or_introl eq_refl) Pa), W. split; [reflexivity|discriminate].
+Qed.
+
+Lemma norm_parts_in : forall p ps prev a f, norm_parts p prev ps = true -> In (PExpr a f) ps -> p a = true.
+Proof.
+  induction ps as [|[s|b g] r IH]; intros prev a f N H; [contradiction| |].
+  - cbn [norm_parts] in N. apply andb_prop in N. destruct N as [_ N3]. destruct H as [H|H]; [discriminate|]. eapply IH; eauto.
+  - cbn [norm_parts] in N. apply andb_prop in N. destruct N as [Pb N2]. destruct H as [H|H]; [inversion H; subst; exact Pb|].
+    eapply IH; eauto.
+Qed.
+
 Theorem min_paren_ok : forall n e, esize e < n -> printable e = true ->
   wf (min_paren e) = true /\ desugar (min_paren e) = e.
 Proof.
   induction n; intros e Hs Hp; [lia|].
-  destruct e; simpl in Hs, Hp; try discriminate.
+  destruct e; simpl in Hs; try (simpl in Hp; discriminate);
+    try (lazymatch goal with |- context [EInterp] => idtac | _ => simpl in Hp end).
   - (* EScalar *) split; [reflexivity|]. simpl. rewrite remove_underscores_id by exact Hp. reflexivity.
   - split; reflexivity.
   - split; reflexivity.
   - split; reflexivity.
   - (* EString *) split; [reflexivity|]. simpl. rewrite string_escape_roundtrip. reflexivity.
+  - (* EInterp *)
+    rewrite printable_interp in Hp. apply andb_prop in Hp. destruct Hp as [HI HN].
+    assert (HA : forall a f, In (PExpr a f) parts -> printable a = true ->
+              wf (min_paren a) = true /\ desugar (min_paren a) = a).
+    { intros a f Ha Pa. apply IHn; [pose proof (esize_in_parts a f parts Ha); lia|exact Pa]. }
+    rewrite min_paren_interp. split.
+    + destruct (mp_parts_wf min_paren printable parts false (fun a f Ha Pa => proj1 (HA a f Ha Pa)) HN) as [W NE].
+      cbn [wf]. specialize (NE HI). destruct (snd (mp_parts min_paren parts)); [contradiction|exact W].
+    + cbn [desugar]. rewrite string_escape_roundtrip_delim.
+      pose proof (mp_parts_ok min_paren printable parts false (fun a f Ha Pa => proj2 (HA a f Ha Pa)) HN) as E.
+      unfold parts_of in E. rewrite E. reflexivity.
   - (* EUn *)
     destruct op.
     + destruct (IHn e ltac:(lia) Hp) as [W D]. split.
